@@ -26,6 +26,15 @@ def load_variants():
     return vs + TWINS
 
 
+def _sig(toks, i, step):
+    """next/previous token that is not a line break or comment"""
+    import tokenize
+    j = i + step
+    while 0 <= j < len(toks) and toks[j].type in (tokenize.NL, tokenize.COMMENT):
+        j += step
+    return toks[j] if 0 <= j < len(toks) else None
+
+
 def _rename_in_function(src: str, func: str, ren: dict) -> str | None:
     """rename local identifiers (NAME tokens not preceded by '.', not keyword
     names in calls) inside the function ``Class.method`` / ``func``"""
@@ -71,9 +80,10 @@ def _rename_in_function(src: str, func: str, ren: dict) -> str | None:
         elif t.type == tokenize.OP and t.string in ")]}" and stack:
             stack.pop()
         if t.type == tokenize.NAME and t.string in ren and lo <= t.start[0] <= hi:
-            prev = toks[i - 1] if i else None
-            nxt = toks[i + 1] if i + 1 < len(toks) else None
-            if prev is not None and prev.type == tokenize.OP and prev.string == ".":
+            prev = _sig(toks, i, -1)
+            nxt = _sig(toks, i, +1)
+            if prev is not None and ((prev.type == tokenize.OP and prev.string == ".")
+                                     or prev.string in ("def", "class")):
                 continue
             if nxt is not None and nxt.type == tokenize.OP and nxt.string == "=" \
                     and prev is not None and prev.string in ("(", ",") \
@@ -90,8 +100,131 @@ def _rename_in_function(src: str, func: str, ren: dict) -> str | None:
     return "".join(lines)
 
 
+def _locals_of(fn) -> set:
+    """names bound by assignment/for/with/comprehension in ``fn`` itself
+    (not parameters, not imports, not global/nonlocal, not nested defs)"""
+    import ast
+    out, banned = set(), set()
+    params = {a.arg for a in ast.walk(fn.args) if isinstance(a, ast.arg)}
+
+    def walk(n, top):
+        for ch in ast.iter_child_nodes(n):
+            if isinstance(ch, (ast.FunctionDef, ast.AsyncFunctionDef, ast.ClassDef, ast.Lambda)):
+                # names used inside nested scopes keep working because the
+                # whole line span is renamed; their own bindings are not ours,
+                # and a name they bind themselves must not be renamed by us
+                for x in ast.walk(ch):
+                    if isinstance(x, ast.arg):
+                        banned.add(x.arg)
+                    if isinstance(x, ast.Name) and isinstance(x.ctx, ast.Store):
+                        banned.add(x.id)
+                    if isinstance(x, (ast.Global, ast.Nonlocal)):
+                        banned.update(x.names)
+                    if isinstance(x, (ast.FunctionDef, ast.ClassDef)):
+                        banned.add(x.name)
+                if not isinstance(ch, ast.Lambda):
+                    banned.add(ch.name)
+                continue
+            if isinstance(ch, (ast.Global, ast.Nonlocal)):
+                banned.update(ch.names)
+            if isinstance(ch, (ast.Import, ast.ImportFrom)):
+                for a in ch.names:
+                    banned.add((a.asname or a.name).split(".")[0])
+            if isinstance(ch, ast.ExceptHandler) and ch.name:
+                banned.add(ch.name)
+            if isinstance(ch, ast.Name) and isinstance(ch.ctx, ast.Store):
+                out.add(ch.id)
+            if isinstance(ch, (ast.MatchAs, ast.MatchStar)) and ch.name:
+                banned.add(ch.name)
+            walk(ch, False)
+    walk(fn, True)
+    return {n for n in out - banned - params if not n.startswith("__")}
+
+
+def _rename_all_locals(src: str) -> str:
+    """every local variable of every top-level function / method gets the
+    suffix _r (a behaviour-preserving edit that changes a lot of text)"""
+    import ast
+    import io
+    import tokenize
+    tree = ast.parse(src)
+    spans = []      # (lo, hi, names)
+
+    def funcs(body):
+        for n in body:
+            if isinstance(n, (ast.FunctionDef, ast.AsyncFunctionDef)):
+                kw = set()
+                for x in ast.walk(n):
+                    # keyword names used in calls inside the function: a local
+                    # of that name stays (f(shape=shape) is fine, but
+                    # dict(**locals()) style tricks are not worth the risk)
+                    if isinstance(x, ast.Call) and isinstance(x.func, ast.Name) \
+                            and x.func.id in ("locals", "vars", "eval", "exec"):
+                        kw.add("*")
+                if "*" in kw:
+                    continue
+                names = _locals_of(n)
+                if names:
+                    spans.append((n.lineno, n.end_lineno, names))
+            elif isinstance(n, ast.ClassDef):
+                funcs(n.body)
+            elif isinstance(n, (ast.If, ast.Try)):
+                funcs(n.body)
+                funcs(getattr(n, "orelse", []))
+    funcs(tree.body)
+    if not spans:
+        return src
+    toks = list(tokenize.generate_tokens(io.StringIO(src).readline))
+    lines = src.splitlines(keepends=True)
+    edits = []
+    stack = []
+    for i, t in enumerate(toks):
+        if t.type == tokenize.OP and t.string in "([{":
+            stack.append(t.string)
+        elif t.type == tokenize.OP and t.string in ")]}" and stack:
+            stack.pop()
+        if t.type != tokenize.NAME:
+            continue
+        for lo, hi, names in spans:
+            if lo <= t.start[0] <= hi and t.string in names:
+                prev = _sig(toks, i, -1)
+                nxt = _sig(toks, i, +1)
+                if prev is not None and ((prev.type == tokenize.OP and prev.string == ".")
+                                         or prev.string in ("def", "class")):
+                    break
+                if nxt is not None and nxt.type == tokenize.OP and nxt.string == "=" \
+                        and prev is not None and prev.string in ("(", ",") \
+                        and stack and stack[-1] == "(":
+                    break
+                edits.append((t.start, t.end, t.string + "_r"))
+                break
+    for (sl, sc), (_el, ec), new in sorted(edits, reverse=True):
+        line = lines[sl - 1]
+        lines[sl - 1] = line[:sc] + new + line[ec:]
+    return "".join(lines)
+
+
 def _apply(scratch: Path, edits) -> bool:
     for e in edits:
+        if "transform" in e:
+            import ast
+            files = sorted(scratch.glob(e["glob"]))
+            if not files:
+                return False
+            for p in files:
+                s = p.read_text()
+                if e["transform"] == "unparse":
+                    s2 = ast.unparse(ast.parse(s)) + "\n"
+                elif e["transform"] == "rename_all_locals":
+                    s2 = _rename_all_locals(s)
+                else:
+                    return False
+                try:
+                    compile(s2, str(p), "exec")
+                except SyntaxError:
+                    return False
+                p.write_text(s2)
+            continue
         p = scratch / e["file"]
         if not p.exists():
             return False
